@@ -1,8 +1,13 @@
 //! Batch execution: runs are independent pure functions of (seed, property, index); how they
 //! are spread over worker threads cannot influence any of them. Results are collected by index.
 
-use std::sync::atomic::{AtomicUsize, Ordering};
+use std::sync::atomic::{AtomicBool, AtomicU64, AtomicUsize, Ordering};
 use std::sync::Mutex;
+use std::time::Instant;
+
+/// Wall-clock limit for one item (a simulated run); exceeding it is a harness error (exit 2),
+/// never a violation: hanging is C01's subject, not C11-C13's.
+pub const ITEM_WATCHDOG_S: u64 = 300;
 
 /// Run `f(i)` for i in 0..n on `threads` workers. `is_failure` marks results after which no
 /// *later* index needs to run (all earlier indices still complete, so the smallest failing
@@ -16,14 +21,42 @@ pub fn run_indexed<R: Send, F: Fn(usize) -> R + Sync, G: Fn(&R) -> bool + Sync>(
     let next = AtomicUsize::new(0);
     let stop_at = AtomicUsize::new(n);
     let slots: Vec<Mutex<Option<R>>> = (0..n).map(|_| Mutex::new(None)).collect();
+    let t0 = Instant::now();
+    // per worker: (item index + 1, start in ms since t0); 0 = idle
+    let current: Vec<(AtomicUsize, AtomicU64)> =
+        (0..threads.max(1)).map(|_| (AtomicUsize::new(0), AtomicU64::new(0))).collect();
+    let done = AtomicBool::new(false);
     std::thread::scope(|s| {
+        let mut monitor = None;
+        {
+            let current = &current;
+            let done = &done;
+            monitor = Some(s.spawn(move || {
+                while !done.load(Ordering::SeqCst) {
+                    std::thread::park_timeout(std::time::Duration::from_millis(500));
+                    let now = t0.elapsed().as_millis() as u64;
+                    for (i, st) in current {
+                        let item = i.load(Ordering::SeqCst);
+                        if item > 0 && now.saturating_sub(st.load(Ordering::SeqCst)) > ITEM_WATCHDOG_S * 1000 {
+                            eprintln!(
+                                "HARNESS ERROR: item {} did not finish within {ITEM_WATCHDOG_S}s (a hang is not a verdict on this property)",
+                                item - 1
+                            );
+                            std::process::exit(2);
+                        }
+                    }
+                }
+            }));
+        }
+        let mut workers = Vec::new();
         for w in 0..threads.max(1) {
             let next = &next;
             let stop_at = &stop_at;
             let slots = &slots;
             let f = &f;
             let is_failure = &is_failure;
-            std::thread::Builder::new()
+            let cur = &current[w];
+            let h = std::thread::Builder::new()
                 .name(format!("worker-{w}"))
                 .stack_size(16 << 20)
                 .spawn_scoped(s, move || loop {
@@ -31,13 +64,24 @@ pub fn run_indexed<R: Send, F: Fn(usize) -> R + Sync, G: Fn(&R) -> bool + Sync>(
                     if i >= n || i > stop_at.load(Ordering::SeqCst) {
                         break;
                     }
+                    cur.1.store(t0.elapsed().as_millis() as u64, Ordering::SeqCst);
+                    cur.0.store(i + 1, Ordering::SeqCst);
                     let r = f(i);
+                    cur.0.store(0, Ordering::SeqCst);
                     if is_failure(&r) {
                         stop_at.fetch_min(i, Ordering::SeqCst);
                     }
                     *slots[i].lock().unwrap() = Some(r);
                 })
                 .expect("spawn worker");
+            workers.push(h);
+        }
+        for h in workers {
+            let _ = h.join();
+        }
+        done.store(true, Ordering::SeqCst);
+        if let Some(m) = monitor.take() {
+            m.thread().unpark();
         }
     });
     slots.into_iter().map(|m| m.into_inner().unwrap()).collect()
